@@ -191,7 +191,7 @@ func quiet(f func()) {
 	f()
 }
 
-// saveSnapshot builds a DB without a chain (Rescan = empty maps, nothing read), fills the map with the
+// saveSnapshot builds a DB without a chain, fills the map with the
 // given raw records and lets the real Close()/Save()/save() write UTXO.db.
 func saveSnapshot(dir string, s *Snap) (err string) {
 	defer func() {
@@ -200,10 +200,22 @@ func saveSnapshot(dir string, s *Snap) (err string) {
 		}
 	}()
 	utxo.UTXO_WRITING_TIME_TARGET = 0
+	// bootstrap: an empty snapshot (header only, 0 records) written by hand, opened by the real loader.
+	// (Rescan / a missing file would pre-size 256 maps for 100000 records each — ~1 GB per call.)
+	hdr := make([]byte, 48)
+	if s.Compressed {
+		hdr[7] = 0x80
+	}
+	if e := os.WriteFile(dir+"UTXO.db", hdr, 0644); e != nil {
+		return e.Error()
+	}
 	var db *utxo.UnspentDB
 	quiet(func() {
-		db = utxo.NewUnspentDb(&utxo.NewUnspentOpts{Dir: dir, Rescan: true, CompressRecords: s.Compressed})
+		db = utxo.NewUnspentDb(&utxo.NewUnspentOpts{Dir: dir, CompressRecords: s.Compressed})
 	})
+	if db.ComprssedUTXO != s.Compressed || len(db.LastBlockHash) != 32 {
+		return "bootstrap snapshot not loaded"
+	}
 	for k, v := range s.Recs {
 		vv := exact(v)
 		db.HashMap[k[0]][k] = &vv
